@@ -13,6 +13,16 @@ package main
 // synchronisation (`mut`, `readyChan`) — Lock/Unlock, the non-blocking send in a `select` — are
 // skipped and named in a note: the lock discipline itself is a gofacts fact.
 // Anything outside the subset makes the method "NOT TRANSLATED" and the bridging lemma fails.
+//
+// Targets with a fixed parameter list (`Params`; the consensus rulesets of protocol/rules, Props/C04Gen) use a
+// larger subset: pointer values of opaque types (`nil` is a parameter, a method call through nil clears the
+// flag, with Go's short-circuit evaluation of `&&`/`||` respected), chained accessor calls, `==`/`!=` on opaque
+// values with decidable equality, the zero value `T{}` as a parameter, calls of methods of the same receiver
+// translated before, `return f(x)` forwarding two results, `if init; cond`, `else if`, the blank identifier,
+// bool-valued expressions, a struct-typed parameter split into its fields, block scoping (a local that shadows
+// a variable of an enclosing block gets a fresh Lean name), logging calls skipped with a note.  In these
+// targets every operand type is checked; an `if` whose branches assign nothing is still translated, so that
+// anything unsupported inside it is reported rather than dropped.
 
 import (
 	"fmt"
@@ -40,17 +50,56 @@ type methodTarget struct {
 	Types     map[string]string
 	Accessors map[string]string
 	Ext       map[string][2]string // "<ext>.<M>" -> {argument Lean type, result Lean type}
+	// extensions used by the consensus rulesets (protocol/rules):
+	Log     []string               // logging fields: a statement that is a call on one of them is skipped (its arguments are still evaluated for panics)
+	Ptr     map[string]string      // Lean type of pointer values -> name of the parameter standing for `nil`; dereferencing nil clears the last result component
+	Zero    map[string]string      // Lean type -> name of the parameter standing for the zero value `T{}`
+	Structs map[string][][2]string // Go struct type of a parameter -> {Go field, Lean type}: the parameter becomes one argument `<param>_<field>` per listed field
+	ExtFn   map[string][]string    // "<ext>.<M>" -> argument Lean types..., result Lean type: a call usable inside expressions
+	Params  []string               // if set: the fixed list of function parameters "(name : type)" that every def of the target takes, in this order
+	Deq     []string               // type variables with decidable equality (`==`, `!=` on their values)
 }
 
 var methodTargets = []methodTarget{
-	{"core/eventloop/queue.go", "queue", []string{"entries", "head", "tail"}, []string{"mut", "readyChan"},
-		[]string{"push", "pop", "len"}, "Queue", []string{"α"}, nil, nil, nil},
-	{"protocol/viewstates.go", "ViewStates", []string{"highTC", "highQC", "view", "committedBlock"}, []string{"mut", "blockchain", "auth"},
-		[]string{"UpdateHighQC", "UpdateHighTC", "NextView", "EnterViewAfter", "View", "HighQC", "HighTC", "UpdateCommittedBlock", "CommittedBlock"},
-		"ViewStates", []string{"QC", "TC", "Blk", "Hash"},
-		map[string]string{"hotstuff.QuorumCert": "QC", "hotstuff.TimeoutCert": "TC", "*hotstuff.Block": "Blk", "hotstuff.View": "Int", "error": "Bool"},
-		map[string]string{"View": "Int", "BlockHash": "Hash"},
-		map[string][2]string{"blockchain.Get": {"Hash", "Blk"}}},
+	{File: "core/eventloop/queue.go", Recv: "queue", Fields: []string{"entries", "head", "tail"}, Sync: []string{"mut", "readyChan"},
+		Methods: []string{"push", "pop", "len"}, Out: "Queue", TypeVars: []string{"α"}},
+	{File: "protocol/viewstates.go", Recv: "ViewStates", Fields: []string{"highTC", "highQC", "view", "committedBlock"}, Sync: []string{"mut", "blockchain", "auth"},
+		Methods: []string{"UpdateHighQC", "UpdateHighTC", "NextView", "EnterViewAfter", "View", "HighQC", "HighTC", "UpdateCommittedBlock", "CommittedBlock"},
+		Out:     "ViewStates", TypeVars: []string{"QC", "TC", "Blk", "Hash"},
+		Types:     map[string]string{"hotstuff.QuorumCert": "QC", "hotstuff.TimeoutCert": "TC", "*hotstuff.Block": "Blk", "hotstuff.View": "Int", "error": "Bool"},
+		Accessors: map[string]string{"View": "Int", "BlockHash": "Hash"},
+		Ext:       map[string][2]string{"blockchain.Get": {"Hash", "Blk"}}},
+	rulesTarget("protocol/rules/chainedhotstuff.go", "ChainedHotStuff", []string{"bLock"}, "RulesChained"),
+	rulesTarget("protocol/rules/fasthotstuff.go", "FastHotStuff", nil, "RulesFast"),
+	rulesTarget("protocol/rules/simplehotstuff.go", "SimpleHotStuff", []string{"locked"}, "RulesSimple"),
+}
+
+// rulesTarget: CommitRule / VoteRule (and the helper qcRef where the ruleset has one) of a consensus ruleset.
+// Blocks and aggregate QCs are pointer values (`nil` is the parameter `Blk_nil` / `AggQC_nil`), hashes and
+// certificates opaque values, views Int; the accessors of blocks and certificates and the two methods of the
+// block store (`Get`, `Extends`) are parameters, the same fixed list for every def (so that the signature does
+// not depend on which of them a method happens to use).
+func rulesTarget(file, recv string, fields []string, out string) methodTarget {
+	methods := []string{"qcRef", "CommitRule", "VoteRule"}
+	if recv == "SimpleHotStuff" {
+		methods = methods[1:]
+	}
+	return methodTarget{File: file, Recv: recv, Fields: fields, Sync: []string{"config", "blockchain"}, Log: []string{"logger"},
+		Methods: methods, Out: out, TypeVars: []string{"Blk", "QC", "AggQC", "Hash"},
+		Types: map[string]string{"hotstuff.QuorumCert": "QC", "*hotstuff.Block": "Blk", "hotstuff.View": "Int", "hotstuff.Hash": "Hash",
+			"*hotstuff.AggregateQC": "AggQC"},
+		Accessors: map[string]string{"View": "Int", "BlockHash": "Hash", "Parent": "Hash", "Hash": "Hash", "QuorumCert": "QC"},
+		Ext:       map[string][2]string{"blockchain.Get": {"Hash", "Blk"}},
+		ExtFn:     map[string][]string{"blockchain.Extends": {"Blk", "Blk", "Bool"}},
+		Ptr:       map[string]string{"Blk": "Blk_nil", "AggQC": "AggQC_nil"},
+		Zero:      map[string]string{"Hash": "Hash_zero"},
+		Structs:   map[string][][2]string{"hotstuff.ProposeMsg": {{"Block", "Blk"}, {"AggregateQC", "AggQC"}}},
+		Deq:       []string{"Blk", "AggQC", "Hash"},
+		Params: []string{"(Blk_nil : Blk)", "(AggQC_nil : AggQC)", "(Hash_zero : Hash)",
+			"(Blk_View : Blk → Int)", "(Blk_Parent : Blk → Hash)", "(Blk_Hash : Blk → Hash)", "(Blk_QuorumCert : Blk → QC)",
+			"(QC_BlockHash : QC → Hash)", "(QC_View : QC → Int)", "(AggQC_View : AggQC → Int)",
+			"(blockchain_Get : Hash → Blk × Bool)", "(blockchain_Extends : Blk → Blk → Bool)"},
+	}
 }
 
 type mtr struct {
@@ -60,13 +109,74 @@ type mtr struct {
 	ftype  map[string]string
 	err    error
 	notes  []string
-	checks []string // pending index checks of the statement being translated
-	vtype  map[string]string // Lean type of parameters, fields (by Lean variable name) and locals where known
-	used   []string          // function parameters (accessors, external calls) used by the method, "name : type"
-	resTy  []string          // Lean result types of the method being translated
+	checks []string            // pending index checks of the statement being translated
+	vtype  map[string]string   // Lean type of parameters, fields (by Lean variable name) and locals where known
+	used   []string            // function parameters (accessors, external calls) used by the method, "name : type"
+	resTy  []string            // Lean result types of the method being translated
+	ren    map[string]string   // Go name -> Lean name, for locals that shadow a variable of an enclosing block
+	fresh  int                 // counter for such names
+	sib    map[string][]string // methods of the target translated so far -> their Lean result types (for calls `recv.m(...)`)
+	sparam map[string]bool     // parameters of struct type (expanded into one argument per field)
+}
+
+// id: the Lean name of a Go variable
+func (t *mtr) id(name string) string {
+	if r, ok := t.ren[name]; ok {
+		return r
+	}
+	return leanIdent(name)
+}
+
+func copyRen(m map[string]string) map[string]string {
+	o := map[string]string{}
+	for k, v := range m {
+		o[k] = v
+	}
+	return o
+}
+
+// typed records the Lean type of a translated expression (keyed by its text)
+func (t *mtr) typed(s, ty string) string {
+	if ty != "" {
+		t.vtype[s] = ty
+	}
+	return s
+}
+
+func (t *mtr) paramNames() []string {
+	var out []string
+	for _, p := range t.tg.Params {
+		out = append(out, strings.TrimSpace(strings.SplitN(strings.TrimPrefix(p, "("), ":", 2)[0]))
+	}
+	return out
+}
+
+func inList(l []string, x string) bool {
+	for _, y := range l {
+		if y == x {
+			return true
+		}
+	}
+	return false
+}
+
+// derefCheck: Go panics when a method is called through a nil pointer
+func (t *mtr) derefCheck(recv string) {
+	if nilName, ok := t.tg.Ptr[t.vtype[recv]]; ok {
+		t.use(fmt.Sprintf("(%s : %s)", nilName, t.vtype[recv]))
+		if chk := fmt.Sprintf("(decide (%s ≠ %s))", recv, nilName); !inList(t.checks, chk) {
+			t.checks = append(t.checks, chk)
+		}
+	}
 }
 
 func (t *mtr) use(decl string) {
+	if t.tg.Params != nil {
+		if !inList(t.tg.Params, decl) && t.err == nil {
+			t.err = fmt.Errorf("needs a parameter outside the target's list: %s", decl)
+		}
+		return
+	}
 	for _, u := range t.used {
 		if u == decl {
 			return
@@ -145,24 +255,50 @@ func (t *mtr) expr(e ast.Expr) string {
 		case "nil":
 			return "none"
 		case "true", "false":
-			return x.Name
+			return t.typed(x.Name, "Bool")
+		case "_":
+			return t.fail(e, "blank identifier as a value")
 		}
-		return leanIdent(x.Name)
+		if x.Name == "nil" && t.tg.Ptr != nil {
+			return t.fail(e, "nil without a pointer type in context")
+		}
+		return t.id(x.Name)
 	case *ast.BasicLit:
 		if x.Kind == token.INT {
-			return x.Value
+			return t.typed(x.Value, "Int")
 		}
 		return t.fail(e, "literal")
 	case *ast.ParenExpr:
-		return "(" + t.expr(x.X) + ")"
+		in := t.expr(x.X)
+		return t.typed("("+in+")", t.vtype[in])
+	case *ast.CompositeLit:
+		// the zero value `T{}` of an opaque type
+		if len(x.Elts) == 0 && x.Type != nil {
+			if ty := t.lt(t.src(x.Type)); ty != "" {
+				if z, ok := t.tg.Zero[ty]; ok {
+					t.use(fmt.Sprintf("(%s : %s)", z, ty))
+					return t.typed(z, ty)
+				}
+			}
+		}
+		return t.fail(e, "composite literal")
 	case *ast.UnaryExpr:
 		if x.Op == token.SUB {
-			return "(-" + t.expr(x.X) + ")"
+			return t.typed("(-"+t.expr(x.X)+")", "Int")
+		}
+		if x.Op == token.NOT && t.tg.Params != nil {
+			return t.typed("(decide "+t.cond(e)+")", "Bool")
 		}
 		return t.fail(e, "unary operator")
 	case *ast.SelectorExpr:
 		if f, ok := t.isField(x); ok && t.modelled(f) {
 			return fieldVar(t.recv, f)
+		}
+		if id, ok := x.X.(*ast.Ident); ok && t.sparam[id.Name] {
+			v := leanIdent(id.Name) + "_" + x.Sel.Name
+			if t.vtype[v] != "" {
+				return v
+			}
 		}
 		return t.fail(e, "selector")
 	case *ast.IndexExpr:
@@ -173,14 +309,21 @@ func (t *mtr) expr(e ast.Expr) string {
 		}
 		return t.fail(e, "index")
 	case *ast.BinaryExpr:
+		if t.tg.Params != nil {
+			switch x.Op {
+			case token.LAND, token.LOR, token.LSS, token.LEQ, token.GTR, token.GEQ, token.EQL, token.NEQ:
+				// a Go bool computed by comparison / short-circuit operators
+				return t.typed("(decide "+t.cond(e)+")", "Bool")
+			}
+		}
 		l, r := t.expr(x.X), t.expr(x.Y)
 		switch x.Op {
 		case token.ADD:
-			return "(" + l + " + " + r + ")"
+			return t.typed("("+l+" + "+r+")", "Int")
 		case token.SUB:
-			return "(" + l + " - " + r + ")"
+			return t.typed("("+l+" - "+r+")", "Int")
 		case token.MUL:
-			return "(" + l + " * " + r + ")"
+			return t.typed("("+l+" * "+r+")", "Int")
 		}
 		return t.fail(e, "operator")
 	case *ast.CallExpr:
@@ -193,7 +336,26 @@ func (t *mtr) expr(e ast.Expr) string {
 				if ty := t.vtype[recv]; ty != "" && ty != "Int" && ty != "Bool" {
 					fn := ty + "_" + se.Sel.Name
 					t.use(fmt.Sprintf("(%s : %s → %s)", fn, ty, rty))
-					return "(" + fn + " " + recv + ")"
+					t.derefCheck(recv)
+					return t.typed("("+fn+" "+recv+")", rty)
+				}
+			}
+		}
+		if se, ok := x.Fun.(*ast.SelectorExpr); ok {
+			// a call into another component that returns one value: `hs.blockchain.Extends(a, b)`
+			if f, ok := t.isField(se.X); ok {
+				if sig, ok := t.tg.ExtFn[f+"."+se.Sel.Name]; ok && len(sig) == len(x.Args)+1 {
+					fn := f + "_" + se.Sel.Name
+					t.use(fmt.Sprintf("(%s : %s)", fn, strings.Join(sig, " → ")))
+					call := "(" + fn
+					for i, a := range x.Args {
+						as := t.expr(a)
+						if t.vtype[as] != sig[i] {
+							return t.fail(e, "argument type of "+fn)
+						}
+						call += " " + as
+					}
+					return t.typed(call+")", sig[len(sig)-1])
 				}
 			}
 		}
@@ -212,22 +374,72 @@ func (t *mtr) cond(e ast.Expr) string {
 	case *ast.ParenExpr:
 		return "(" + t.cond(x.X) + ")"
 	case *ast.Ident:
-		if t.vtype[leanIdent(x.Name)] == "Bool" {
-			return "(" + leanIdent(x.Name) + " = true)"
+		if t.vtype[t.id(x.Name)] == "Bool" {
+			return "(" + t.id(x.Name) + " = true)"
 		}
 	case *ast.UnaryExpr:
-		if id, ok := x.X.(*ast.Ident); ok && x.Op == token.NOT && t.vtype[leanIdent(id.Name)] == "Bool" {
-			return "(" + leanIdent(id.Name) + " = false)"
+		if id, ok := x.X.(*ast.Ident); ok && x.Op == token.NOT && t.vtype[t.id(id.Name)] == "Bool" {
+			return "(" + t.id(id.Name) + " = false)"
+		}
+		if x.Op == token.NOT && t.tg.Params != nil {
+			return "(¬ " + t.cond(x.X) + ")"
 		}
 	case *ast.BinaryExpr:
 		switch x.Op {
-		case token.LAND:
-			return "(" + t.cond(x.X) + " ∧ " + t.cond(x.Y) + ")"
-		case token.LOR:
-			return "(" + t.cond(x.X) + " ∨ " + t.cond(x.Y) + ")"
+		case token.LAND, token.LOR:
+			// Go evaluates the right operand only if the left one does not decide: the panic checks of the
+			// right operand are guarded by the left operand
+			l := t.cond(x.X)
+			n := len(t.checks)
+			r := t.cond(x.Y)
+			for i := n; i < len(t.checks); i++ {
+				if x.Op == token.LAND {
+					t.checks[i] = "(!(decide " + l + ") || " + t.checks[i] + ")"
+				} else {
+					t.checks[i] = "((decide " + l + ") || " + t.checks[i] + ")"
+				}
+			}
+			if x.Op == token.LAND {
+				return "(" + l + " ∧ " + r + ")"
+			}
+			return "(" + l + " ∨ " + r + ")"
 		case token.LSS, token.LEQ, token.GTR, token.GEQ, token.EQL, token.NEQ:
 			op := map[token.Token]string{token.LSS: "<", token.LEQ: "≤", token.GTR: ">", token.GEQ: "≥", token.EQL: "=", token.NEQ: "≠"}[x.Op]
-			return "(" + t.expr(x.X) + " " + op + " " + t.expr(x.Y) + ")"
+			if x.Op == token.EQL || x.Op == token.NEQ {
+				// comparison of a pointer with nil
+				isNil := func(e ast.Expr) bool { id, ok := e.(*ast.Ident); return ok && id.Name == "nil" }
+				if t.tg.Ptr != nil && (isNil(x.X) != isNil(x.Y)) {
+					o := x.X
+					if isNil(x.X) {
+						o = x.Y
+					}
+					os := t.expr(o)
+					nilName, ok := t.tg.Ptr[t.vtype[os]]
+					if !ok || !inList(t.tg.Deq, t.vtype[os]) {
+						t.fail(e, "comparison with nil of a value that is not a pointer")
+						return "True"
+					}
+					t.use(fmt.Sprintf("(%s : %s)", nilName, t.vtype[os]))
+					return "(" + os + " " + op + " " + nilName + ")"
+				}
+			}
+			l, r := t.expr(x.X), t.expr(x.Y)
+			if t.tg.Params != nil {
+				// operand types must be known and agree; `<` needs Int, `==` Int, Bool or a type with decidable equality
+				lt, rt := t.vtype[l], t.vtype[r]
+				okTy := lt == rt && (lt == "Int" || ((x.Op == token.EQL || x.Op == token.NEQ) && (lt == "Bool" || inList(t.tg.Deq, lt))))
+				if !okTy {
+					t.fail(e, "comparison of operands of type '"+lt+"' and '"+rt+"'")
+					return "True"
+				}
+			}
+			return "(" + l + " " + op + " " + r + ")"
+		}
+	}
+	if t.tg.Params != nil {
+		// any other expression of type bool
+		if s := t.expr(e); t.vtype[s] == "Bool" {
+			return "(" + s + " = true)"
 		}
 	}
 	t.fail(e, "condition")
@@ -237,7 +449,7 @@ func (t *mtr) cond(e ast.Expr) string {
 // target variable of an assignable expression (local, named result or modelled int field)
 func (t *mtr) lhsVar(e ast.Expr) (string, bool) {
 	if id, ok := e.(*ast.Ident); ok {
-		return leanIdent(id.Name), true
+		return t.id(id.Name), true
 	}
 	if f, ok := t.isField(e); ok && t.modelled(f) && t.ftype[f] != "[]any" {
 		return fieldVar(t.recv, f), true
@@ -325,6 +537,19 @@ func (t *mtr) assignedVars(list []ast.Stmt, scope map[string]bool) []string {
 				}
 			case *ast.IndexExpr:
 				add("inb")
+			case *ast.CallExpr:
+				if se, ok := x.Fun.(*ast.SelectorExpr); ok && t.tg.Ptr != nil {
+					if _, acc := t.tg.Accessors[se.Sel.Name]; acc {
+						add("inb") // a dereference: may clear the flag
+					}
+					if id, ok := se.X.(*ast.Ident); ok && id.Name == t.recv {
+						// a call of another method of the receiver: may change every field and the flag
+						add("inb")
+						for _, f := range t.tg.Fields {
+							add(fieldVar(t.recv, f))
+						}
+					}
+				}
 			}
 			return true
 		})
@@ -388,6 +613,7 @@ type mctx struct {
 	scope   map[string]bool // declared Lean variables
 	results []string        // named results (Lean names), if any
 	state   []string        // field variables
+	local   map[string]bool // Go names declared in the current Go block; nil in the outermost block of the function
 }
 
 func (c *mctx) clone() *mctx {
@@ -395,7 +621,95 @@ func (c *mctx) clone() *mctx {
 	for k, v := range c.scope {
 		m[k] = v
 	}
-	return &mctx{m, c.results, c.state}
+	var l map[string]bool
+	if c.local != nil {
+		l = map[string]bool{}
+		for k, v := range c.local {
+			l[k] = v
+		}
+	}
+	return &mctx{m, c.results, c.state, l}
+}
+
+// nested: the context of a Go block inside the current one
+func (c *mctx) nested() *mctx {
+	n := c.clone()
+	n.local = map[string]bool{}
+	return n
+}
+
+// declare: `name := …` in context c (already cloned by the caller).  A name declared in an inner block that is
+// visible from an enclosing block shadows it in Go only until the end of the inner block, while the Lean
+// translation puts the code after the inner block inside it: such a local gets a fresh Lean name.
+func (t *mtr) declare(c *mctx, name string) string {
+	v := t.id(name)
+	if c.local != nil && !c.local[name] && c.scope[v] {
+		t.fresh++
+		v = fmt.Sprintf("%s'%d", leanIdent(name), t.fresh)
+		t.ren[name] = v
+	}
+	if c.local != nil {
+		c.local[name] = true
+	}
+	c.scope[v] = true
+	return v
+}
+
+// logOnly: `recv.<logging field>.<M>(args…)`
+func (t *mtr) logOnly(s ast.Stmt) (*ast.CallExpr, bool) {
+	es, ok := s.(*ast.ExprStmt)
+	if !ok {
+		return nil, false
+	}
+	call, ok := es.X.(*ast.CallExpr)
+	if !ok {
+		return nil, false
+	}
+	se, ok := call.Fun.(*ast.SelectorExpr)
+	if !ok {
+		return nil, false
+	}
+	f, ok := t.isField(se.X)
+	return call, ok && inList(t.tg.Log, f)
+}
+
+// twoResults: the translation of a call with results (value, bool): an external `recv.<ext>.<M>(arg)` or a
+// method of the target translated before.  Returns Lean lines binding r' and the texts of the two results.
+func (t *mtr) twoResults(call *ast.CallExpr, c *mctx, ind string) (pre, val, ok2, valTy string, ok bool) {
+	se, isSel := call.Fun.(*ast.SelectorExpr)
+	if !isSel {
+		return
+	}
+	if f, isF := t.isField(se.X); isF && len(call.Args) == 1 {
+		if sig, found := t.tg.Ext[f+"."+se.Sel.Name]; found {
+			fn := f + "_" + se.Sel.Name
+			t.use(fmt.Sprintf("(%s : %s → %s × Bool)", fn, sig[0], sig[1]))
+			arg := t.expr(call.Args[0])
+			if t.tg.Params != nil && t.vtype[arg] != sig[0] {
+				t.fail(call, "argument type of "+fn)
+			}
+			pre = t.flushChecks(ind) + fmt.Sprintf("%slet r' := (%s %s)\n", ind, fn, arg)
+			return pre, "r'.1", "r'.2", sig[1], true
+		}
+	}
+	if id, isId := se.X.(*ast.Ident); isId && id.Name == t.recv && t.tg.Params != nil {
+		if rty, found := t.sib[se.Sel.Name]; found && len(rty) == 2 && rty[1] == "Bool" {
+			app := "(" + t.tg.Recv + "_" + se.Sel.Name + " " + strings.Join(t.paramNames(), " ")
+			for _, v := range c.state {
+				app += " " + v
+			}
+			for _, a := range call.Args {
+				app += " " + t.expr(a)
+			}
+			pre = t.flushChecks(ind) + fmt.Sprintf("%slet r' := %s)\n", ind, app)
+			for k, v := range c.state {
+				pre += fmt.Sprintf("%slet %s := %s\n", ind, v, proj("r'.1", k, len(c.state)))
+			}
+			pre += fmt.Sprintf("%slet inb : Bool := inb && r'.2.2\n", ind)
+			return pre, "r'.2.1.1", "r'.2.1.2", rty[0], true
+		}
+	}
+	return
 }
 
 func (t *mtr) flushChecks(ind string) string {
@@ -418,18 +732,50 @@ func (t *mtr) block(list []ast.Stmt, c *mctx, ind string, rest func(c *mctx, ind
 		t.notes = append(t.notes, "skipped (synchronisation only): "+strings.Join(strings.Fields(t.src(s)), " "))
 		return next(c, ind)
 	}
+	if call, ok := t.logOnly(s); ok {
+		// the arguments are evaluated (a nil dereference among them would panic), the call itself is skipped
+		for _, a := range call.Args {
+			if bl, ok := a.(*ast.BasicLit); ok && bl.Kind == token.STRING {
+				continue
+			}
+			t.expr(a)
+		}
+		if n := "skipped (logging only): " + strings.Join(strings.Fields(t.src(s)), " "); !inList(t.notes, n) {
+			t.notes = append(t.notes, n) // (a statement after an early return is translated once per path)
+		}
+		return t.flushChecks(ind) + next(c, ind)
+	}
 	switch x := s.(type) {
 	case *ast.ReturnStmt:
 		var rs []string
+		if len(x.Results) == 1 && len(t.resTy) == 2 && t.tg.Params != nil {
+			// `return f(x)` forwarding the two results of a call
+			if call, ok := x.Results[0].(*ast.CallExpr); ok {
+				if pre, val, ok2, valTy, ok := t.twoResults(call, c, ind); ok && valTy == t.resTy[0] && t.resTy[1] == "Bool" {
+					return pre + ind + "(" + tupleOf(c.state) + ", (" + val + ", " + ok2 + "), inb)\n"
+				}
+			}
+			t.fail(s, "return of a call")
+			return ""
+		}
 		if len(x.Results) == 0 {
 			rs = c.results
 		} else {
 			for i, r := range x.Results {
+				if id, ok := r.(*ast.Ident); ok && id.Name == "nil" && i < len(t.resTy) && t.tg.Ptr[t.resTy[i]] != "" {
+					t.use(fmt.Sprintf("(%s : %s)", t.tg.Ptr[t.resTy[i]], t.resTy[i]))
+					rs = append(rs, t.tg.Ptr[t.resTy[i]]) // nil pointer
+					continue
+				}
 				if id, ok := r.(*ast.Ident); ok && id.Name == "nil" && i < len(t.resTy) && t.resTy[i] == "Bool" {
 					rs = append(rs, "false") // nil error
 					continue
 				}
-				rs = append(rs, t.expr(r))
+				e := t.expr(r)
+				if t.tg.Params != nil && (i >= len(t.resTy) || t.vtype[e] != t.resTy[i]) {
+					t.fail(s, "type of the returned value")
+				}
+				rs = append(rs, e)
 			}
 		}
 		if len(rs) == 0 {
@@ -438,6 +784,31 @@ func (t *mtr) block(list []ast.Stmt, c *mctx, ind string, rest func(c *mctx, ind
 		pre := t.flushChecks(ind)
 		return pre + ind + "(" + tupleOf(c.state) + ", " + tupleOf(rs) + ", inb)\n"
 	case *ast.AssignStmt:
+		if len(x.Lhs) == 2 && len(x.Rhs) == 1 && x.Tok == token.DEFINE && t.tg.Params != nil {
+			// v, ok := recv.<ext>.<M>(arg)  or  v, ok := recv.<method translated before>(args); either name may be `_`
+			v0, ok0 := x.Lhs[0].(*ast.Ident)
+			v1, ok1 := x.Lhs[1].(*ast.Ident)
+			call, okc := x.Rhs[0].(*ast.CallExpr)
+			if ok0 && ok1 && okc {
+				if pre, val, ok2, valTy, ok := t.twoResults(call, c, ind); ok {
+					c = c.clone()
+					out := pre
+					if v0.Name != "_" {
+						a := t.declare(c, v0.Name)
+						t.vtype[a] = valTy
+						out += fmt.Sprintf("%slet %s := %s\n", ind, a, val)
+					}
+					if v1.Name != "_" {
+						b := t.declare(c, v1.Name)
+						t.vtype[b] = "Bool"
+						out += fmt.Sprintf("%slet %s := %s\n", ind, b, ok2)
+					}
+					return out + next(c, ind)
+				}
+			}
+			t.fail(s, "two-value assignment")
+			return ""
+		}
 		if len(x.Lhs) == 2 && len(x.Rhs) == 1 && x.Tok == token.DEFINE {
 			// v, ok := s.<ext>.<M>(arg)
 			if call, ok := x.Rhs[0].(*ast.CallExpr); ok && len(call.Args) == 1 {
@@ -484,6 +855,27 @@ func (t *mtr) block(list []ast.Stmt, c *mctx, ind string, rest func(c *mctx, ind
 			return ""
 		}
 		r := t.expr(x.Rhs[0])
+		if id, isId := x.Lhs[0].(*ast.Ident); isId && t.tg.Params != nil {
+			if id.Name == "_" {
+				t.fail(s, "assignment to the blank identifier")
+				return ""
+			}
+			if t.vtype[r] == "" {
+				t.fail(s, "type of the assigned value")
+				return ""
+			}
+			if x.Tok == token.DEFINE {
+				c = c.clone()
+				v = t.declare(c, id.Name)
+				t.vtype[v] = t.vtype[r]
+			} else if t.vtype[v] != t.vtype[r] {
+				t.fail(s, "assignment changes the type")
+				return ""
+			}
+		} else if t.tg.Params != nil && t.vtype[v] != t.vtype[r] {
+			t.fail(s, "assignment changes the type")
+			return ""
+		}
 		switch x.Tok {
 		case token.DEFINE:
 			c = c.clone()
@@ -512,19 +904,70 @@ func (t *mtr) block(list []ast.Stmt, c *mctx, ind string, rest func(c *mctx, ind
 		return fmt.Sprintf("%slet %s := (%s %s 1)\n", ind, v, v, op) + next(c, ind)
 	case *ast.IfStmt:
 		if x.Init != nil {
-			t.fail(s, "if with init")
-			return ""
+			if t.tg.Params == nil {
+				t.fail(s, "if with init")
+				return ""
+			}
+			// `if init; cond {…} else {…}` is the block `{ init; if cond {…} else {…} }`
+			saved := copyRen(t.ren)
+			plain := *x
+			plain.Init = nil
+			return t.block([]ast.Stmt{x.Init, &plain}, c.nested(), ind, func(_ *mctx, ind string) string {
+				t.ren = copyRen(saved)
+				return next(c, ind)
+			})
 		}
 		cnd := t.cond(x.Cond)
 		pre := t.flushChecks(ind)
 		var elseList []ast.Stmt
 		if x.Else != nil {
 			eb, ok := x.Else.(*ast.BlockStmt)
-			if !ok {
+			if ei, isIf := x.Else.(*ast.IfStmt); isIf && t.tg.Params != nil {
+				elseList = []ast.Stmt{ei} // else if
+			} else if !ok {
 				t.fail(s, "else-if")
 				return ""
+			} else {
+				elseList = eb.List
 			}
-			elseList = eb.List
+		}
+		if t.tg.Params != nil {
+			// as below, with block scopes: what follows the `if` sees the variables of the enclosing block again
+			saved := copyRen(t.ren)
+			after := func(_ *mctx, ind string) string {
+				t.ren = copyRen(saved)
+				return next(c, ind)
+			}
+			if containsReturn(x.Body.List) || containsReturn(elseList) {
+				th := t.block(x.Body.List, c.nested(), ind+"  ", after)
+				t.ren = copyRen(saved)
+				el := t.block(elseList, c.nested(), ind+"  ", after)
+				t.ren = copyRen(saved)
+				return pre + fmt.Sprintf("%sif %s then\n%s%selse\n%s", ind, cnd, th, ind, el)
+			}
+			vars := t.assignedVars(append(append([]ast.Stmt{}, x.Body.List...), elseList...), c.scope)
+			tup := tupleOf(vars)
+			if len(vars) == 0 {
+				tup = "()" // nothing to merge; the branches are still translated so that anything unsupported in them is reported
+			}
+			fin := func(_ *mctx, ind string) string { return ind + tup + "\n" }
+			th := t.block(x.Body.List, c.nested(), ind+"    ", fin)
+			t.ren = copyRen(saved)
+			el := t.block(elseList, c.nested(), ind+"    ", fin)
+			t.ren = copyRen(saved)
+			var sb strings.Builder
+			sb.WriteString(pre)
+			switch len(vars) {
+			case 0:
+			case 1:
+				fmt.Fprintf(&sb, "%slet %s :=\n%s  if %s then\n%s%s  else\n%s", ind, vars[0], ind, cnd, th, ind, el)
+			default:
+				fmt.Fprintf(&sb, "%slet p' :=\n%s  if %s then\n%s%s  else\n%s", ind, ind, cnd, th, ind, el)
+				for k, v := range vars {
+					fmt.Fprintf(&sb, "%slet %s := %s\n", ind, v, proj("p'", k, len(vars)))
+				}
+			}
+			return sb.String() + next(c, ind)
 		}
 		if containsReturn(x.Body.List) || containsReturn(elseList) {
 			// early return: the continuation goes into every branch that falls through
@@ -564,6 +1007,9 @@ func (t *mtr) method(fd *ast.FuncDecl) (string, error) {
 	t.vtype = map[string]string{}
 	t.used = nil
 	t.resTy = nil
+	t.ren = map[string]string{}
+	t.fresh = 0
+	t.sparam = map[string]bool{}
 	c := &mctx{scope: map[string]bool{"inb": true}}
 	var binders []string
 	for _, f := range t.tg.Fields {
@@ -574,11 +1020,28 @@ func (t *mtr) method(fd *ast.FuncDecl) (string, error) {
 		t.vtype[v] = t.lt(t.ftype[f])
 	}
 	for _, f := range fd.Type.Params.List {
+		if flds, ok := t.tg.Structs[t.src(f.Type)]; ok {
+			// a parameter of struct type: one argument per listed field
+			for _, n := range f.Names {
+				t.sparam[n.Name] = true
+				for _, fl := range flds {
+					v := leanIdent(n.Name) + "_" + fl[0]
+					c.scope[v] = true
+					t.vtype[v] = fl[1]
+					binders = append(binders, fmt.Sprintf("(%s : %s)", v, fl[1]))
+				}
+			}
+			continue
+		}
 		ty := t.lt(t.src(f.Type))
 		if ty == "" {
 			return "", fmt.Errorf("parameter type %s", t.src(f.Type))
 		}
 		for _, n := range f.Names {
+			if n.Name == "_" {
+				binders = append(binders, fmt.Sprintf("(_ : %s)", ty))
+				continue
+			}
 			v := leanIdent(n.Name)
 			c.scope[v] = true
 			t.vtype[v] = ty
@@ -632,6 +1095,21 @@ func (t *mtr) method(fd *ast.FuncDecl) (string, error) {
 	ext := ""
 	if len(t.used) > 0 {
 		ext = strings.Join(t.used, " ") + "\n    "
+	}
+	if t.tg.Params != nil {
+		for _, d := range t.tg.Deq {
+			ext += "[DecidableEq " + d + "] "
+		}
+		ext = strings.TrimRight(ext, " ") + "\n    " + strings.Join(t.tg.Params, " ") + "\n    "
+		if len(stTypes) == 0 {
+			stTypes = []string{"Unit"}
+		}
+		if t.sib == nil {
+			t.sib = map[string][]string{}
+		}
+		if !noResults {
+			t.sib[fd.Name.Name] = resTypes
+		}
 	}
 	sigText := ext + strings.Join(binders, " ") + strings.Join(stTypes, " ") + strings.Join(resTypes, " ")
 	var tvs []string
@@ -700,7 +1178,7 @@ func translateMethods(repo, outDir string) ([]fnOut, error) {
 		}
 		// every field of the struct must be either modelled or listed as synchronisation
 		for fl := range t.ftype {
-			if !t.modelled(fl) && !t.isSync(fl) {
+			if !t.modelled(fl) && !t.isSync(fl) && !inList(tg.Log, fl) {
 				structOK = false
 			}
 		}
